@@ -99,4 +99,41 @@ def build(lexmod, parmod):
                              'errok_calls': Helper(lambda e: rec2['errok']), 'backtracked': Helper(lambda e: rec2.get('backtracked')),
                              '__extern__': {PAR + ':Parser._raise_syntax_error': PExt('_raise_syntax_error', None, raises=(ESE,), always_raises=True)}},
                         notes='auto_semi=%s cur=%s prev=%s relex=%s' % (auto, cur, prev, relex)))
+    cs.extend(build_read_regex(lexmod))
     return cs, [], {}
+
+
+def build_read_regex(lexmod):
+    """Lexer._read_regex (a double in the contract of Lexer._token): ply is switched to the `regex` state, asked for exactly one token
+    through get_lexer_token WHILE in that state, switched back to INITIAL, and that token is returned (or None at the end of input)."""
+    cs = []
+    rec = {}
+    for end in (False, True):
+        class LexerSelf(object):
+            def __init__(self, end=end):
+                self.end = end
+
+            def make(self, name):
+                rec.clear()
+                rec.update(log=[], state='INITIAL')
+                o = PObj(lexmod.Lexer, name='lexer')
+                inner = PObj(object, name='plylexer')
+
+                def begin(e, a, k):
+                    rec['log'].append(('begin', a[0] if a else None))
+                    rec['state'] = a[0] if a else None
+                inner.fields['begin'] = PExt('ply.begin', begin)
+                o.fields['lexer'] = inner
+                tok = None if self.end else Tok().make('regex_token')
+                rec['tok'] = tok
+
+                def get(e, a, k):
+                    rec['log'].append(('token', rec['state']))
+                    return tok if len([x for x in rec['log'] if x[0] == 'token']) == 1 else Tok().make('second_call')
+                o.fields['get_lexer_token'] = PExt('Lexer.get_lexer_token', get)
+                return o
+        cs.append(Contract(LEX + ':Lexer._read_regex', params={'self': LexerSelf()},
+                           ensures=['result is the_token()', "log() == [('begin', 'regex'), ('token', 'regex'), ('begin', 'INITIAL')]"],
+                           env={'the_token': Helper(lambda e: rec['tok']), 'log': Helper(lambda e: list(rec['log']))},
+                           notes='end of input' if end else 'a token'))
+    return cs
